@@ -1,7 +1,7 @@
 """
 Worker for C34 (TzIndex.tla): runs the real conversions of moment.py.  argv[1] = JSON {"inp", "out"}.
 
-Input items (one kind per file):
+Input items (a file may mix the kinds):
   {"k": "syn", "z": {"u": [...], "o": [...]}, "lo": .., "hi": ..}      one case per item
       a synthetic zone (hours; offsets west of UTC as in the records) is installed into moment's zone
       table as a ZoneRecord and probed through ts_to_dt / dt_to_ts / date_to_ts; hour 0 is BASE_S
@@ -13,9 +13,9 @@ Input items (one kind per file):
   {"k": "shape"}                                                      one case per bundled zone
 
 Nothing is judged here.  Besides the outputs of the code, the cases carry judgement-free readings of
-the RAW zone records (raw_index, raw_cands, raw_exists): which offsets the record lists around an
-instant, whether a local time occurs in some segment.  Trace_TzIndex compares these readers with the
-definitions of the specification on every synthetic case.
+the RAW zone records (raw_index, raw_cands, raw_exists, raw_day_skipped): which offsets the record lists
+around an instant, whether a local time occurs in some segment, whether a whole local day is skipped.
+Trace_TzIndex compares these readers with the definitions of the specification on every synthetic case.
 """
 import bisect
 import datetime
